@@ -27,6 +27,58 @@ ABSTRACT = {
 }
 
 
+def fld_ev(cls, name):
+    return z3.Function(f"fld!{cls}.{name}", T.Ev, T.Ev)(SELF)
+
+
+def seq_at(cls, name):
+    n = z3.Function(f"fld!{cls}.{name}#n", T.Ev, T.I)(SELF)
+    at = z3.Function(f"fld!{cls}.{name}#at", T.Ev, T.I, T.Ev)
+    return n, (lambda i: at(SELF, i))
+
+
+def _stablefail(e):
+    """H-stablefail(e): if e cannot be evaluated under o it cannot under the pruning o2 either"""
+    return z3.Implies(z3.Not(T.EVok(e, O1)), z3.Not(T.EVok(e, O2)))
+
+
+def _region_coalesce():
+    n, at = seq_at("Coalesce", "members")
+    i = z3.Const("i!reg", T.I)
+    m = at(i)
+    rng = z3.And(i >= 0, i < n)
+    return [z3.ForAll([i], z3.Implies(rng, z3.And(_stablefail(m),
+                                                  z3.Implies(z3.Not(T.VLok(m, O1)), z3.Not(T.VLok(m, O2))),
+                                                  z3.Implies(T.VLok(m, O1), T.EVok(m, O1)),
+                                                  z3.Implies(T.VLok(m, O2), T.EVok(m, O2)))), patterns=[at(i)])]
+
+
+def _region_effect(cls):
+    e = fld_ev(cls, "effect")
+    v = z3.Const("v!reg", T.Val)
+    o = z3.Const("o!reg", T.Opt)
+    return [z3.ForAll([v, o], T.TFok(e, v, o), patterns=[T.TFok(e, v, o)]), z3.ForAll([o], T.VLok(e, o), patterns=[T.VLok(e, o)])]
+
+
+# known-finding regions (DESIGN 10.3): the law is proved on the complement of the recorded region, i.e. with these extra
+# hypotheses; the recorded witness of each finding is replayed on the real code by the check.
+REGIONS = {
+    "Switch": [("F18", "a dispatch that cannot be evaluated under o can under the pruning (fallback to default)",
+                lambda: [_stablefail(fld_ev("Switch", "dispatch"))])],
+    "Overloaded": [("F18", "a dispatch that cannot be evaluated under o can under the pruning (fallback to default)",
+                    lambda: [_stablefail(fld_ev("Overloaded", "dispatch"))])],
+    "Coalesce": [("F19", "a member that fails (or validates but cannot be evaluated) contributes no keys (F10, F19, F21)", _region_coalesce)],
+    "Computation": [("F15", "an effect whose outcome depends on the options (its options are not part of keys)", lambda: _region_effect("Computation"))],
+}
+
+
+def region_hyps(C):
+    out = []
+    for fid, text, mk in REGIONS.get(C, []):
+        out += mk()
+    return out
+
+
 def observe(ex, v):
     """turn a result into a comparable term inside the run (so that forcing/observing forks are enumerated)"""
     if isinstance(v, Delayed):
@@ -58,11 +110,24 @@ def user_raise(p):
     return any(t[0] == "user-raise" for t in p.tags)
 
 
+T.assume("A-flags", "the LABREA.* switch options (LABREA.CACHE.DISABLED/DISABLE, LABREA.EFFECTS.DISABLED, LABREA.LOGGING.DISABLED), "
+         "when present, hold plain JSON booleans: reading a switch never fails")
+
+
+def temp_contract(ex, obj, t):
+    """facts about temporaries used through their class contract"""
+    if obj.cls.name == "Option":
+        k = obj.fields.get("key")
+        if isinstance(k, str) and k.startswith("LABREA."):
+            o = z3.Const("o!flag", T.Opt)
+            ex.define(z3.ForAll([o], T.EVok(t, o), patterns=[T.EVok(t, o)]))
+
+
 class Runs:
     def __init__(self, repo, ci, extra_config=None):
         self.repo, self.ci = repo, ci
         self.cache = {}
-        self.config = {"abstract_classes": ABSTRACT.get(ci.name, ABSTRACT["default"])}
+        self.config = {"abstract_classes": ABSTRACT.get(ci.name, ABSTRACT["default"]), "temp_contract": temp_contract}
         if extra_config:
             self.config.update(extra_config)
 
@@ -80,11 +145,12 @@ class Runs:
         return self.cache[key]
 
 
-def base(ci, which=("L1", "L2", "L3", "L4a", "L5", "L6", "L6v")):
+def base(ci, which=("L1", "L2", "L3", "L4a", "L5", "L5d", "L6", "L6v")):
     hyps = T.base_axioms() + T.child_laws(which) + litkey_facts()
     inv = CLASS_INV.get(ci.name)
     if inv:
         hyps += inv(SELF)
+    hyps += region_hyps(ci.name)
     return hyps
 
 
@@ -114,7 +180,7 @@ def unsupported(paths):
     return [p.value for p in paths if p.kind == "unsupported"]
 
 
-def law_vcs(repo, ci, laws=("L1", "L2", "L3", "L6", "L6v", "L4a", "L5")):
+def law_vcs(repo, ci, laws=("L1", "L2", "L3", "L6", "L6v", "L4a", "L5", "L5d", "L4t")):
     """returns (vcs, undecided) for class ci"""
     R = Runs(repo, ci)
     vcs, undecided = [], []
@@ -199,13 +265,26 @@ def law_vcs(repo, ci, laws=("L1", "L2", "L3", "L6", "L6v", "L4a", "L5")):
             # (a) nothing listed is absent => validate cannot fail for a missing option
             goal = z3.And(*[z3.Implies(pathcond(v), z3.BoolVal(True) if v.kind == "ok" else z3.Not(T.missing(exc_term(v)))) for v in V1])
             vcs.append(VC(f"{C}:L5a:explain#{i}", pre + [none_missing], goal, {"law": "L5", "cls": C}))
-            # (b) something listed is absent => validate fails
+            # (b) something listed is absent => validate fails   (under A-total)
             k0 = z3.Const("k!absent", T.Key)
             goal = z3.And(*[z3.Implies(pathcond(v), v.kind == "exc") for v in V1])
-            vcs.append(VC(f"{C}:L5b:explain#{i}", pre + [z3.IsMember(k0, X), z3.Not(T.has(O1, k0))], goal, {"law": "L5", "cls": C}))
+            vcs.append(VC(f"{C}:L5b:explain#{i}", pre + T.total_axioms() + [z3.IsMember(k0, X), z3.Not(T.has(O1, k0))], goal, {"law": "L5b", "cls": C}))
             # (c) a missing-key failure of validate names a listed, absent key
             goal = z3.And(*[z3.Implies(z3.And(pathcond(v), T.missing(exc_term(v))),
                                        z3.And(z3.IsMember(T.mkey(exc_term(v)), X), z3.Not(T.has(O1, T.mkey(exc_term(v))))))
                             for v in V1 if v.kind == "exc"] or [z3.BoolVal(True)])
             vcs.append(VC(f"{C}:L5c:explain#{i}", pre, goal, {"law": "L5", "cls": C}))
+    if "L5d" in laws and X1 is not None:
+        for meth, ps in (("validate", V1), ("evaluate", E1)):
+            for i, v in enumerate(ps or []):
+                if v.kind == "ok" and not after_return(v):
+                    goal = z3.And(*[z3.Implies(pathcond(x), x.kind == "ok") for x in X1])
+                    vcs.append(VC(f"{C}:L5d:{meth}#{i}", hyp + v.pc + v.defs, goal, {"law": "L5d", "cls": C}))
+    if "L4t" in laws and V1 is not None and E1 is not None and K1 is not None:
+        tot = hyp + T.total_axioms()
+        for i, v in enumerate(V1):
+            goal = z3.And(*[z3.Implies(pathcond(e), e.kind == v.kind) for e in E1 if not after_return(e)] or [z3.BoolVal(True)])
+            vcs.append(VC(f"{C}:L4t:validate#{i}~evaluate", tot + v.pc + v.defs, goal, {"law": "L4t", "cls": C}))
+            goal = z3.And(*[z3.Implies(pathcond(q), q.kind == v.kind) for q in K1])
+            vcs.append(VC(f"{C}:L4t:validate#{i}~keys", tot + v.pc + v.defs, goal, {"law": "L4t", "cls": C}))
     return vcs, undecided
